@@ -173,6 +173,9 @@ def gen_ops(rng, sc, length, kinds):
         ops.append(rng.choice([dict(op="setup", inst=0, T=None), dict(op="call", inst=0, args=a0),
                                dict(op="setup", inst=0, T=sorted(rng.sample(range(n), 1)))]))
         ops.append(dict(op="xrun", inst=0, xid=0, args=a0))
+    if "setupsel" in kinds and rng.random() < 0.15:
+        # directed: an EMPTY selection first (it selects nothing; it is not "no selection"), on a cold instance
+        ops.append(rng.choice([dict(op="setup", inst=0, T=[]), dict(op="exec", inst=0, T=[], args=(1,))]))
     for _ in range(length):
         k = rng.choice(kinds)
         inst = rng.randrange(ninst)
